@@ -11,7 +11,7 @@ from . import smallscope as ss
 from .codec import Some, opt, plain
 from .core import Plugin, ROOT
 
-LOADERS = ["records", "epm", "prefix_map", "priority", "reverse", "jsonld", "upgrade", "records_reused"]
+LOADERS = ["records", "epm", "prefix_map", "priority", "reverse", "jsonld", "upgrade", "records_reused", "rdflib"]
 
 
 def rec_to_dict(r):
@@ -140,6 +140,25 @@ def load(tag, data, d):
     raise ValueError(tag)
 
 
+def rdflib_graph(data):
+    """A graph whose namespace bindings are (as far as rdflib lets them be) the given prefix map; which stock namespaces rdflib
+    adds depends on bind_namespaces: none / core / the default set."""
+    import rdflib
+
+    kind = ["none", "core", "rdflib"][len(data) % 3]
+    g = rdflib.Graph(bind_namespaces=kind)
+    for p, u in data:
+        try:
+            g.bind(p, rdflib.URIRef(u), override=True, replace=True)
+        except Exception:
+            pass
+    return g
+
+
+def graph_namespaces(g):
+    return [[str(p), str(u)] for p, u in g.namespaces()]
+
+
 def reused_records(data):
     """Record objects with a history: built with half of their synonyms, used in a strict converter (whatever the library
     derives from a record on first use is derived now), then extended to the full synonym lists by the public merge path
@@ -194,8 +213,20 @@ def observe_load(case, files=False):
             case = [[tag, data], d, strs, pairs]
         except pydantic.ValidationError:
             return case, [4, [], []]
+    graph = None
+    if tag == 8:
+        # the input of from_rdflib is what the graph lists as its namespaces when the call is made
+        graph = rdflib_graph(data)
+        data = graph_namespaces(graph)
+        case = [[tag, data], d, strs, pairs]
     try:
-        c = load(tag, data, d)
+        if tag == 8:
+            c = curies.Converter.from_rdflib(graph, **qprops.flags(delimiter=d))
+            c_m = curies.Converter.from_rdflib(graph.namespace_manager, **qprops.flags(delimiter=d))
+            if [qprops.v_record(r) for r in c_m.records] != [qprops.v_record(r) for r in c.records] or graph_namespaces(graph) != data:
+                return case, [9, [], []]    # graph and its manager load differently, or the caller's graph was modified
+        else:
+            c = load(tag, data, d)
     except curies.DuplicateURIPrefixes as e:
         return case, [1, listing(e), []]
     except curies.DuplicatePrefixes as e:
@@ -237,14 +268,14 @@ class LoadPlugin(Plugin):
 
     def generate(self, rng, n):
         for _ in range(n):
-            tag = rng.choice([0, 1, 2, 3, 4, 5, 6, 7, 7])
+            tag = rng.choice([0, 1, 2, 3, 4, 5, 6, 7, 7, 8])
             clash = rng.random() < self.clash_rate
-            data = gen_input(rng, tag, clash)
+            data = gen_input(rng, 2 if tag == 8 else tag, clash)
             d = rng.choice([":", ":", ":", "/", "_"])
             recs_like = []
             if tag in (0, 1, 7):
                 recs_like = data
-            elif tag in (2, 6):
+            elif tag in (2, 6, 8):
                 recs_like = [[p, u, [], [], None] for p, u in data]
             elif tag == 3:
                 recs_like = [[p, us[0], [], us[1:], None] for p, us in data if us]
